@@ -229,6 +229,53 @@ theorem binding_name_links_partial (p : List Ent) (fuel : Nat) (hn : noExtension
     inheritProject p fuel = p :=
   inheritList_noExtension p fuel p hn
 
+/-- Tie to the source (re-probed on every run, round 6): the macros `type_summary` and `bound_info` of
+    `macros.html`, rendered by FORD's own Jinja2 environment on the real (correlated) types of the probe project -
+    a binding the type declares and one it inherits x `tb.visible` x `visible` of the declaring type x
+    `external_url` set / absent, 32 renderings - print the name of a binding exactly as `bindNameLink true` says:
+    in the summary card a link iff the binding is `visible` **and** (the type that declares it is `visible` or the
+    URL is external), and then to the page of the declaring type (never the carrier's, never anywhere else); on the
+    type's own page never a link.  Dropping the test of the declaring type from the macro changes two rows. -/
+theorem bound_declaration_probe_matches_model :
+    C05.boundDeclProbe.all (boundDeclRowOk true) = true ∧ C05.boundDeclProbe.length = 32
+    ∧ (C05.boundDeclProbe.filter fun r => r.2.2.2.2.2 != "name").length = 6 := by decide
+
+/-- **Binding names in type summaries never link to the page of an unselected type** (clause "links never
+    point at pages of unselected entities"; full strength: any project, type extension and block data included,
+    any tree `q` that is rendered): when the name of a binding - declared or inherited - is a link in the summary
+    of a type, the type that declares it (whose page the link points into) has a page among `pageIds q` and is
+    `visible`. -/
+theorem binding_name_links (orig q : List Ent) (t b d : Nat) (h : (t, b, d) ∈ bindLinksOf true orig q q) :
+    d ∈ pageIds q ∧ d ∈ visibleIdsOf q :=
+  mem_bindLinksOf orig q t b d q h
+
+/-- ... and after `correlate` + `prune`, for every configuration and every well-formed project (inherited
+    members included: `inheritProject`), that page is the page of a **selected** entity (`pages_exact_partial`). -/
+theorem binding_name_links_point_at_selected_pages (cfg : Cfg) (p : List Ent) (fuel : Nat)
+    (hc : cfgOk cfg = true) (hw : wfProject p = true)
+    (hf : cfg.fileInherits = true ∨ noFileDisplay (inheritProject p fuel) = true) (t b d : Nat)
+    (h : (t, b, d) ∈ bindLinksOf true p (pruneProject cfg (inheritProject p fuel))
+           (pruneProject cfg (inheritProject p fuel))) :
+    d ∈ selPages cfg (inheritProject p fuel) := by
+  rw [← pageIds_pruneProject cfg hc _ (wfProject_inheritProject p hw fuel) hf]
+  exact (mem_bindLinksOf p _ t b d _ h).1
+
+/-- Why the macro needs its test (the behaviour of fixed finding
+    `C05-inherited-binding-links-to-unselected-type`, and of any edit that removes the test): without it
+    (`guarded := false`) the inherited binding 4 in the summary of the public type 5 links into the page of the
+    private type 3, which is not written; with it there is no link - and with `display: public, private` the same
+    link is made and legitimate (non-vacuity of `binding_name_links`). -/
+theorem binding_name_link_unguarded_witness :
+    bindLinksOf false wInheritedBinding (pruneProject wCfgInt (inheritProject wInheritedBinding 8))
+      (pruneProject wCfgInt (inheritProject wInheritedBinding 8)) = [(5, 4, 3)]
+    ∧ bindLinksOf true wInheritedBinding (pruneProject wCfgInt (inheritProject wInheritedBinding 8))
+      (pruneProject wCfgInt (inheritProject wInheritedBinding 8)) = []
+    ∧ 3 ∉ pageIds (pruneProject wCfgInt (inheritProject wInheritedBinding 8))
+    ∧ bindLinksOf true wInheritedBinding
+        (pruneProject { wCfgInt with display := [.pub, .priv] } (inheritProject wInheritedBinding 8))
+        (pruneProject { wCfgInt with display := [.pub, .priv] } (inheritProject wInheritedBinding 8))
+      = [(3, 4, 3), (5, 4, 3)] := by decide
+
 /-- **`extends(...)` links** (partial: projects without block data units): the type named in the
     `extends(...)` of a type is printed as a link only if it is `visible`, and outside block data `visible` is
     set by a `prune()` on what it keeps: the linked type survived `prune()` (so, by the selection theorems, it is
